@@ -171,7 +171,8 @@ class Ctx:
         """make the development (full .vo build), recompile the property file capturing
         Print Assumptions, scan the cone for forbidden vernacular, count obligations."""
         t = time.time()
-        p = self.sh(["make", "-C", COQ, "-j16"], timeout=3000)
+        # one build at a time: several checks may run concurrently
+        p = self.sh("flock %s/.build.lock make -C %s -j16" % (COQ, COQ), timeout=3000)
         cone = self.cone(props_file)
         ok = p.returncode == 0
         log = p.stdout + p.stderr
